@@ -143,9 +143,16 @@ func judge(f *tgen.File, a tgen.Args, r result) error {
 	// The statement promises *whether* an expression is evaluated, not in which order (class and
 	// script expressions are legitimately evaluated in front of their element): compare as multisets.
 	if !sameMultiset(r.Trace, d.Trace) {
-		return fmt.Errorf("expressions evaluated %v, control flow reaches %v (an expression was evaluated where control flow does not reach, or skipped)", r.Trace, d.Trace)
+		return &traceError{got: r.Trace, want: d.Trace}
 	}
 	return nil
+}
+
+// traceError: the set of evaluated expressions differs from what control flow reaches.
+type traceError struct{ got, want []string }
+
+func (e *traceError) Error() string {
+	return fmt.Sprintf("expressions evaluated %v, control flow reaches %v (an expression was evaluated where control flow does not reach, or skipped)", e.got, e.want)
 }
 
 func sameMultiset(a, b []string) bool {
@@ -355,7 +362,40 @@ func TestPropRenders(t *testing.T) {
 	})
 }
 
-func knownClass(*tgen.File, tgen.Args, error) string { return "" }
+// knownClass recognises the listed finding: the only disagreement is that expressions were
+// evaluated which control flow does not reach, and every one of them sits in a class attribute
+// inside a conditional attribute (the generator hoists those in front of the element). Nothing
+// may have been skipped.
+func knownClass(f *tgen.File, _ tgen.Args, err error) string {
+	te, ok := err.(*traceError)
+	if !ok {
+		return ""
+	}
+	hoisted := tgen.TicksInConditionalClass(f)
+	count := map[string]int{}
+	for _, x := range te.got {
+		count[x]++
+	}
+	for _, x := range te.want {
+		count[x]--
+	}
+	extra := 0
+	for id, n := range count {
+		if n < 0 {
+			return "" // something control flow reaches was not evaluated
+		}
+		if n > 0 {
+			if !hoisted[id] {
+				return ""
+			}
+			extra++
+		}
+	}
+	if extra == 0 {
+		return ""
+	}
+	return KnownHoistedClass
+}
 
 func TestReplay(t *testing.T) {
 	for _, r := range ev.RunReplays() {
